@@ -3,6 +3,7 @@ import random
 import time
 
 import vlib
+from families import typed
 
 TEXT = {
     "C05": "derived fields (lengths, header-length fields, next-protocol tags, Ethernet padding, IPv4/TCP/UDP/ICMP/ICMPv6 "
@@ -78,6 +79,9 @@ def run(prop, tier, extra=None):
                                  "tunnels), each with %d seeded value sets, read by the TLA+ dissector Stack2 from 8 entry points (C05) / judged on size-exactness "
                                  "and by the region monitor (C02)" % (6 if quick else 40)})
         cat_exec = p3.stats["executions"]
+    if prop == "C04":
+        # typed option setters/getters: mutual inverses on the object and through the wire (spec/wire/TypedOpts)
+        st2.update(typed.run_part(prop, v, quick))
     p.confirm(v, sig)
     rc = v.finish()
     distinct = {vlib.canon_hash(s) for s in scen if nontrivial(s)}
@@ -108,6 +112,8 @@ def replay(prop, path):
     import json
     with open(path) as f:
         h = json.load(f)["replay"]["harness"]
+    if h == "typed_opts":
+        return typed.replay(prop, path)
     if h == "wire_cat":
         return vlib.Pipeline(prop, "wire_cat", "wire/CatTrace", "CatTrace_%s.cfg" % prop).replay_file(path)
     if h == "containers":
